@@ -644,46 +644,94 @@ theorem load_rejects_not_obj {typed : Bool} {sa : String → Atom} {ds : Fields 
   | _ => rfl
 
 theorem load_rejects_no_meta {typed : Bool} {sa : String → Atom} {ds : Fields → DRes} {top : Fields}
-    (h : ∀ hdr, lookupF top "meta" ≠ some (.obj hdr)) :
+    (h : lookupF top "meta" = none) :
     loadJ typed sa ds (.obj top) = .error .runtime := by
-  simp only [loadJ]
-  split
-  · rename_i hdr nodes hm hn
-    exact absurd hm (h hdr)
-  · rfl
+  simp only [loadJ, h]
 
 theorem load_rejects_no_nodes {typed : Bool} {sa : String → Atom} {ds : Fields → DRes} {top : Fields}
-    (h : ∀ nodes, lookupF top "nodes" ≠ some (.arr nodes)) :
+    (h : lookupF top "nodes" = none) :
     loadJ typed sa ds (.obj top) = .error .runtime := by
-  simp only [loadJ]
-  split
-  · rename_i hdr nodes hm hn
-    exact absurd hn (h nodes)
-  · rfl
+  simp only [loadJ, h]
+  cases lookupF top "meta" with
+  | none => rfl
+  | some m => cases m <;> rfl
+
+theorem badMetaErr_arr (l : List JVal) : badMetaErr (.arr l) =
+    if l.any (fun x => match x with | .str s => s == "$generator" | _ => false) = true then .type else .runtime := rfl
+
+/-- `"meta"` is present but not a JSON object: refused, with RuntimeError or — where the `in` test or the
+subscript on that value raises — TypeError (`badMetaErr`). -/
+theorem load_rejects_bad_meta {typed : Bool} {sa : String → Atom} {ds : Fields → DRes} {top : Fields} {m : JVal}
+    (hm : lookupF top "meta" = some m) (h : ∀ hdr, m ≠ .obj hdr) :
+    loadJ typed sa ds (.obj top) = .error .runtime ∨ loadJ typed sa ds (.obj top) = .error .type := by
+  simp only [loadJ, hm]
+  cases hn : lookupF top "nodes" with
+  | none => left; cases m <;> rfl
+  | some nd =>
+    cases m with
+    | obj hdr => exact absurd rfl (h hdr)
+    | null => right; cases nd <;> rfl
+    | bool b => right; cases nd <;> rfl
+    | num i => right; cases nd <;> rfl
+    | str s =>
+      by_cases hc : (s.splitOn "$generator").length > 1
+      · right; cases nd <;> simp [badMetaErr, hc]
+      · left; cases nd <;> simp [badMetaErr, hc]
+    | arr l =>
+      by_cases hc : l.any (fun x => match x with | .str s => s == "$generator" | _ => false) = true
+      · right; cases nd <;> (show Except.error (badMetaErr (JVal.arr l)) = _; rw [badMetaErr_arr, if_pos hc])
+      · left; cases nd <;> (show Except.error (badMetaErr (JVal.arr l)) = _; rw [badMetaErr_arr, if_neg hc])
+
+theorem genOk_false_of_none {hdr : Fields} (hg : lookupF hdr "$generator" = none) : genOk hdr = false := by
+  simp [genOk, hg]
+
+theorem genOk_false_of_bad {hdr : Fields} {g : JVal} (hg : lookupF hdr "$generator" = some g)
+    (hn : hasNutree (match (generalizing := false) g with | .str s => s | _ => "") = false) : genOk hdr = false := by
+  cases g <;> simp_all [genOk]
 
 theorem load_rejects_no_generator {typed : Bool} {sa : String → Atom} {ds : Fields → DRes}
     {top hdr : Fields} (hm : lookupF top "meta" = some (.obj hdr))
     (hg : lookupF hdr "$generator" = none) :
     loadJ typed sa ds (.obj top) = .error .runtime := by
-  simp only [loadJ]
-  split
-  · rename_i hdr' nodes hm' hn
-    rw [hm] at hm'; cases hm'
-    simp only [hg]
-  · rfl
+  simp only [loadJ, hm]
+  cases hn : lookupF top "nodes" with
+  | none => rfl
+  | some nd => cases nd <;> simp [hg, genOk_false_of_none hg]
 
 theorem load_rejects_bad_generator {typed : Bool} {sa : String → Atom} {ds : Fields → DRes}
     {top hdr : Fields} {g : JVal} (hm : lookupF top "meta" = some (.obj hdr))
     (hg : lookupF hdr "$generator" = some g)
     (hn : hasNutree (match (generalizing := false) g with | .str s => s | _ => "") = false) :
     loadJ typed sa ds (.obj top) = .error .runtime := by
-  simp only [loadJ]
-  split
-  · rename_i hdr' nodes hm' hn'
-    rw [hm] at hm'; cases hm'
-    simp only [hg]
-    cases g <;> simp_all
-  · rfl
+  simp only [loadJ, hm]
+  cases hnd : lookupF top "nodes" with
+  | none => rfl
+  | some nd =>
+    cases nd <;> simp only [hg, genOk_false_of_bad hg hn] <;> first | rfl | (cases g <;> simp_all)
+
+theorem hasNutree_empty : hasNutree "" = false := by
+  unfold hasNutree String.splitOn
+  rw [if_neg (by decide)]
+  rw [String.splitOnAux]
+  have : String.Pos.Raw.atEnd "" 0 = true := by decide
+  simp [this]
+
+theorem load_rejects_genOk_false {typed : Bool} {sa : String → Atom} {ds : Fields → DRes}
+    {top hdr : Fields} (hm : lookupF top "meta" = some (.obj hdr)) (hg : genOk hdr = false) :
+    loadJ typed sa ds (.obj top) = .error .runtime := by
+  cases hl : lookupF hdr "$generator" with
+  | none => exact load_rejects_no_generator hm hl
+  | some g =>
+    refine load_rejects_bad_generator hm hl ?_
+    cases g <;> simp_all [genOk, hasNutree_empty]
+
+/-- the header is fine but `"nodes"` is `null`, a number or a bool: iterating it is a TypeError. -/
+theorem load_rejects_scalar_nodes {typed : Bool} {sa : String → Atom} {ds : Fields → DRes}
+    {top hdr : Fields} {nd : JVal} (hm : lookupF top "meta" = some (.obj hdr)) (hn : lookupF top "nodes" = some nd)
+    (hg : genOk hdr = true) (hs : nd = .null ∨ (∃ b, nd = .bool b) ∨ (∃ i, nd = .num i)) :
+    loadJ typed sa ds (.obj top) = .error .type := by
+  simp only [loadJ, hm, hn]
+  rcases hs with rfl | ⟨b, rfl⟩ | ⟨i, rfl⟩ <;> simp [hg, oddNodes]
 
 /-! ### well-shaped entries: the general reader agrees with the reader of written rows -/
 
